@@ -2479,19 +2479,37 @@ fn random_val(kind: &str, rng: &mut Rng) -> Val {
         "f64" => f64::from_bits(rnd_bits(rng)).into(),
         "string" => rnd_str(rng, true).into(),
         "datetime" => DateTime::new(rnd_bits(rng)).into(),
-        "vbool" => rnd_vec(rng, |r| r.chance(1, 2)).into(),
-        "vu8" => rnd_vec(rng, |r| r.next() as u8).into(),
-        "vu16" => rnd_vec(rng, |r| rnd_bits(r) as u16).into(),
-        "vu32" => rnd_vec(rng, |r| rnd_bits(r) as u32).into(),
-        "vu64" => rnd_vec(rng, rnd_bits).into(),
-        "vi8" => rnd_vec(rng, |r| r.next() as i8).into(),
-        "vi16" => rnd_vec(rng, |r| rnd_bits(r) as i16).into(),
-        "vi32" => rnd_vec(rng, |r| rnd_bits(r) as i32).into(),
-        "vi64" => rnd_vec(rng, |r| rnd_bits(r) as i64).into(),
-        "vf32" => rnd_vec(rng, |r| f32::from_bits(rnd_bits(r) as u32)).into(),
-        "vf64" => rnd_vec(rng, |r| f64::from_bits(rnd_bits(r))).into(),
-        "vstring" => rnd_vec(rng, |r| rnd_str(r, false)).into(),
-        "vdatetime" => rnd_vec(rng, |r| DateTime::new(rnd_bits(r))).into(),
+        // arrays: the expected wire form is written out HERE from the Sparkplug rules (little-endian elements,
+        // NUL-terminated strings, count + MSB-first bits for booleans), not taken from srad's encoder - the value
+        // then passes through srad's decoder (token type), srad's encoder (publish) and the host, and must
+        // arrive as these bytes
+        "vbool" => {
+            let v = rnd_vec(rng, |r| r.chance(1, 2));
+            let mut o = (v.len() as u32).to_le_bytes().to_vec();
+            for ch in v.chunks(8) {
+                let mut b = 0u8;
+                for (i, x) in ch.iter().enumerate() {
+                    if *x {
+                        b |= 0x80 >> i;
+                    }
+                }
+                o.push(b);
+            }
+            return val_from_srad(&metric::Value::BytesValue(o));
+        }
+        "vu8" | "vi8" => return val_from_srad(&metric::Value::BytesValue(rnd_vec(rng, |r| r.next() as u8))),
+        "vu16" | "vi16" => return val_from_srad(&metric::Value::BytesValue(rnd_vec(rng, |r| rnd_bits(r) as u16).iter().flat_map(|x| x.to_le_bytes()).collect())),
+        "vu32" | "vi32" | "vf32" => return val_from_srad(&metric::Value::BytesValue(rnd_vec(rng, |r| rnd_bits(r) as u32).iter().flat_map(|x| x.to_le_bytes()).collect())),
+        "vu64" | "vi64" | "vf64" | "vdatetime" => return val_from_srad(&metric::Value::BytesValue(rnd_vec(rng, rnd_bits).iter().flat_map(|x| x.to_le_bytes()).collect())),
+        "vstring" => {
+            let v = rnd_vec(rng, |r| rnd_str(r, false));
+            let mut o = vec![];
+            for x in &v {
+                o.extend_from_slice(x.as_bytes());
+                o.push(0);
+            }
+            return val_from_srad(&metric::Value::BytesValue(o));
+        }
         "raw" => Raw(random_raw(rng)).into(),
         _ => panic!("kind"),
     };
